@@ -66,7 +66,8 @@ pub fn dispatch(op: &str, req: &Value) -> Result<Value, String> {
             let other = "o t h e r".to_string();
             let item = if part_in { TrainData::new(text, Some(other)) } else { TrainData::new(other, Some(text)) };
             let seed: u64 = req["seed"].as_str().ok_or("seed")?.parse().map_err(|_| "seed")?;
-            let info = TextDataInfo { seed, file_idx: 0, marks: HashMap::new() };
+            let file_idx = req["file_idx"].as_str().and_then(|s| s.parse::<usize>().ok()).unwrap_or(0);
+            let info = TextDataInfo { seed, file_idx, marks: HashMap::new() };
             let (item, _) = f(item, info).map_err(|e| e.to_string())?;
             let (i, t) = parts_of(&item);
             let (cor, oth) = if part_in { (i, t) } else { (t, i) };
